@@ -19,6 +19,10 @@ from props.common import U, mkgeom, recording
 ID = "C13"
 FN = "group_sound_events"
 RULE = (
+    "[big] one block of single large or mid-size members beyond the exhaustive bound: cliques K257 / K400, K256,256, paths of 65 / 97 / 193 / 300 events, a star "
+    "with a path, and a FIXED LIST of 80 labelled trees on 32 and 48 events (vertex numbering and shape drawn once from a linear congruential sequence; "
+    "a fixed sample of the family of labelled trees, not the family - every listed member is run). Graphs up to 5 / 6 events are additionally run with "
+    "events of two recordings and with the events given latest first. "
     "[representations] for n <= the pattern bound every graph is also run with a comparison function answering numpy.bool_ / int instead of bool, and with the "
     "last list element being an equal-valued deep copy of an earlier one (graph over list positions, judged on values). "
     "every labelled undirected simple graph on n nodes (all 2^(n(n-1)/2) edge masks for each n in the bound), "
@@ -42,7 +46,8 @@ ASSUMPTIONS = [
     "each sequence is",
     "events are identified in the output by uuid (not by object identity): an implementation returning equal copies "
     "would pass",
-    "the property's 'random larger graphs' clause is sampling and is not part of this check",
+    "the property's 'random larger graphs' clause is sampling and is not the deciding step of this check; the 80 labelled trees of the big block are a fixed, "
+    "listed set of additional members (same list on every run), reported as such",
     "it is not required that every unordered pair is compared (an implementation may skip pairs already known to be "
     "connected); only that no forbidden pair is",
 ]
